@@ -37,9 +37,9 @@ def confirm(out_dir, meta):
     patch = os.path.join(out_dir, "patch.diff")
     demo = os.path.join(out_dir, "demo.rs")
     feats = ""
-    m = re.search(r"--features[ =]([\w,\- ]+?)(?:\s+--|\s*$|\s+-)", meta.get("demo_cmd", "") + " ")
+    m = re.search(r"--features[ =]([\w,\-]+)", meta.get("demo_cmd", ""))
     if m:
-        feats = m.group(1).strip().replace(" ", ",")
+        feats = m.group(1).strip(",")
     fargs = ["--features", feats] if feats else []
     os.makedirs(os.path.join(EVAL, "tests"), exist_ok=True)
     shutil.copy(demo, os.path.join(EVAL, "tests", "demo.rs"))
